@@ -1321,6 +1321,10 @@ class Executor:
         names = [a.arg for a in fa.args]
         if any(isinstance(d, ast.Name) and d.id == "classmethod" for d in fs.node.decorator_list):
             names = names[1:]
+        elif c.qual.endswith(".__init__") and names and names[0] == "self" and not isinstance(getattr(node, "func", None), ast.Attribute) or \
+                (c.qual.endswith(".__init__") and names and names[0] == "self" and isinstance(getattr(node, "func", None), ast.Attribute)
+                 and getattr(node.func, "attr", "") != "__init__"):
+            names = names[1:]       # Class(...) / self.__class__(...): the object under construction is not among the arguments
         bound = {}
         for n_, v in zip(names, args):
             bound[n_] = v
@@ -1564,6 +1568,8 @@ class Executor:
         if meth == "setdefault" and isinstance(recv, PyDict):
             k, v = args[0], (args[1] if len(args) > 1 else None)
             return recv if k in recv.vals else recv.set(k, v)
+        if meth == "pop" and isinstance(recv, PyDict) and args and isinstance(args[0], (str, int)):
+            return PyDict([(kk, recv.vals[kk]) for kk in recv.keys if kk != args[0]])
         if meth == "update" and isinstance(recv, PyDict) and isinstance(args[0], PyDict):
             d = recv
             for k in args[0].keys:
@@ -1584,6 +1590,22 @@ class Executor:
                 for t in s.targets:
                     self.assign(t, new.vals[k], path)
                 return [path]
+        if (isinstance(s.value, ast.Call) and isinstance(s.value.func, ast.Attribute) and s.value.func.attr == "pop"
+                and len(s.value.args) == 2 and not s.value.keywords):
+            # x = d.pop(key, default) on a dict with concrete keys: the entry is removed (if present) and x is its value, else the default
+            recv = self.ev(s.value.func.value, path)
+            if isinstance(recv, PyDict):
+                k = self.ev(s.value.args[0], path)
+                if isinstance(k, (str, int)):
+                    if k in recv.vals:
+                        v = recv.vals[k]
+                        d = PyDict([(kk, recv.vals[kk]) for kk in recv.keys if kk != k])
+                        self.assign(s.value.func.value, d, path)
+                    else:
+                        v = self.ev(s.value.args[1], path)
+                    for t in s.targets:
+                        self.assign(t, v, path)
+                    return [path]
         if (isinstance(s.value, ast.Call) and isinstance(s.value.func, ast.Attribute) and s.value.func.attr == "pop"
                 and len(s.value.args) == 1 and not s.value.keywords):
             recv = self.ev(s.value.func.value, path)
